@@ -27,6 +27,27 @@ def bounded(tier, seed):
         except Exception:  # noqa
             continue
         states, gas = SC.explore(pr, depth)
+        # a query abandoned half-way must not change later answers: partially consumed iterator on a fresh simulator
+        with warnings.catch_warnings():
+            warnings.simplefilter("ignore")
+            try:
+                sim2 = UPSequentialSimulator(pr, error_on_failed_checks=True)
+                s0 = sim2.get_initial_state()
+                it = iter(sim2.get_applicable_actions(s0))
+                next(it, None)
+                del it
+                for st in states[:3]:
+                    ups = SC.mk_upstate(pr, st)
+                    listed = {(a.name, tuple(p.object().name for p in ps)) for a, ps in sim2.get_applicable_actions(ups)}
+                    want = {(a.name, tuple(o.name for o in ps)) for (a, ps) in gas if sim2.apply(ups, a, ps) is not None}
+                    evals += 1
+                    if listed != want:
+                        failures.append({"what": f"seed {s}: after an abandoned get_applicable_actions iteration, a later "
+                                                 f"get_applicable_actions differs from the instances apply accepts",
+                                         "concrete": SC.describe(pr, st), "observed": {"listed": sorted(listed), "apply": sorted(want)}})
+                        break
+            except Exception as e:  # noqa
+                failures.append({"what": f"seed {s}: a query raised {type(e).__name__}: {e}", "concrete": SC.describe(pr, states[0]), "observed": repr(e)})
         for st in states:
             ups = SC.mk_upstate(pr, st)
             before = SC.read_state(pr, ups)
